@@ -103,7 +103,7 @@ pub struct WorkerSpec {
 pub fn run_one(spec: &WorkerSpec, prefix: &[u8]) -> Outcome {
     let f = scenarios::lookup(&spec.scenario).unwrap_or_else(|| panic!("unknown scenario {}", spec.scenario));
     let cfg = spec.cfg.clone();
-    let ec = ExecConfig { max_steps: MAX_STEPS, elide_unlock: spec.elide, try_sites: spec.try_sites.clone() };
+    let ec = ExecConfig { max_steps: MAX_STEPS, elide_unlock: spec.elide, try_sites: spec.try_sites.clone(), spurious: spec.cfg.opt("spur", 0) as u32 };
     run_execution(prefix, &ec, move || f(&cfg))
 }
 
@@ -225,7 +225,7 @@ pub fn worker_main(args: &[String]) {
                                 if alt == p.chosen {
                                     continue;
                                 }
-                                let cost = preempt + if !p.is_choice && p.cur_enabled && alt != p.current { 1 } else { 0 };
+                                let cost = preempt + p.cost_of(alt);
                                 if cost <= spec.bound {
                                     let mut np: Vec<u8> = Vec::with_capacity(i + 1);
                                     np.extend(o.trace[..i].iter().map(|p| p.chosen));
@@ -234,9 +234,7 @@ pub fn worker_main(args: &[String]) {
                                 }
                             }
                         }
-                        if p.is_preemption() {
-                            preempt += 1;
-                        }
+                        preempt += p.deviations();
                     }
                     if execs as usize >= budget || abandoned >= 100 {
                         break;
